@@ -19,6 +19,8 @@ var propRules = map[string][]ruleSpec{
 		{"R10", "Repeat only as a guarded stretch in per-sample operators", ruleR10},
 		{"R21", "attribute state read-only after Init", ruleR21},
 		{"R7t", "Transpose delegates to gorgonia", ruleTermsShapeOps},
+		{"R22", "the broadcast of elementwise operators is not decided by gorgonia's lax Shape.Eq", ruleR22},
+		{"R23", "per-axis broadcast loops visit every axis", ruleR23},
 	},
 	"C05": {
 		{"R11", "Conv geometry: loop/coordinate pairing (K2,K3), index kinds (K1), auto_pad (K4)", ruleR11},
@@ -66,6 +68,7 @@ var propRules = map[string][]ruleSpec{
 		{"R3", "clone before Reshape (E2)", ruleR3},
 		{"R20", "Data() passes the scalar wrapper before slice assertions", ruleR20Scalar},
 		{"R21", "attribute state read-only after Init", ruleR21},
+		{"R22", "gorgonia's lax Shape.Eq does not decide shape matching", ruleR22},
 	},
 	"C08": {
 		{"R9", "user axes/indices validated (R9a) and normalised (R9b)", ruleR9},
@@ -75,6 +78,7 @@ var propRules = map[string][]ruleSpec{
 		{"R20", "Data() passes the scalar wrapper before slice assertions", ruleR20Scalar},
 		{"R21", "attribute state read-only after Init", ruleR21},
 		{"R7t", "Transpose delegates to gorgonia", ruleTermsShapeOps},
+		{"R22", "gorgonia's lax Shape.Eq does not decide shape matching", ruleR22},
 	},
 	"C09": {
 		{"R9", "requested axes normalised before reaching gorgonia (R9b; R9a as notes)", ruleR9},
@@ -83,6 +87,8 @@ var propRules = map[string][]ruleSpec{
 		{"R20s", "Data() passes the scalar wrapper before slice assertions", ruleR20Scalar},
 		{"R21", "attribute state read-only after Init", ruleR21},
 		{"R7t", "Softmax/LogSoftmax delegate to gorgonia on the requested axis", ruleTermsShapeOps},
+		{"R9d", "every requested axis reaches the reduction", ruleAxesPreserved},
+		{"R22", "gorgonia's lax Shape.Eq does not decide shape matching", ruleR22},
 	},
 	"C14": {
 		{"R10", "Repeat only as a guarded stretch", ruleR10},
